@@ -469,9 +469,7 @@ pub fn build_session(c: &HashMap<&str, &str>, objs: &[Vec<&str>]) -> Option<Sess
         let url = url::Url::parse(&format!("file:///dir%20{}/obj{}?q=a&b=<{}>", variant, i, pat)).unwrap();
         let obj = match src {
             "stream" => {
-                if cenc != Cenc::Null {
-                    return None;
-                }
+                // (a content encoding on a stream source: D45 - refused when the object is created since the fix)
                 let cs = Box::new(crate::c08::ChunkStream { data: content.clone(), pos: 0, sched: vec![3, 1, 7, 2, 5], i: 0, armed: true });
                 ObjectDesc::create_from_stream(cs, ctype, &url, md5, tc).ok()?
             }
